@@ -10,13 +10,15 @@ from statham.schema.property import _Property as Property
 class _DeclaredAllOf(AllOf):
     """A declared property whose name also matches `patternProperties`.
 
-    The value must match every schema. The result is built by the declared
-    element (the first), which is the one the property's annotation
-    describes - whichever of the schemas is the most explicitly typed.
+    The value must match every schema. The property's annotation is that of
+    the declared element (the first), so unless that is untyped it builds
+    the result - whichever of the schemas is the most explicitly typed.
     """
 
     def construct(self, value: Any, property_: Property):
-        super().construct(value, property_)
+        result = super().construct(value, property_)
+        if self.elements[0].annotation == "Any":
+            return result
         return self.elements[0](value, property_)
 
 
